@@ -127,10 +127,39 @@ def rnd_desc(rng: random.Random, i: int) -> dict[str, Any]:
     return desc
 
 
+def directed() -> list[dict[str, Any]]:
+    """Two narrow windows, hit on purpose for every phase shift: a stop at the instant the startup finishes (cluster scanning under way),
+    and a stop while a vanished namespace's watcher is being drained and its object's daemon is being stopped in memory."""
+    out: list[dict[str, Any]] = []
+    base_settings = {'queueing__idle_timeout': 1.0, 'persistence__consistency_timeout': 0.5, 'networking__error_backoffs': [0.2, 0.3], 'peering__lifetime': 12,
+                     'background__cancellation_polling': 1.0}
+    k = 0
+    for yields in (0, 1, 2, 3, 5, 8):
+        for dt in (0.0, 0.0005, 0.001, 0.002, 0.003):
+            k += 1
+            handlers = [{'kind': 'startup', 'id': 'st0', 'script': [['slow', 1.5]], 'opts': {'backoff': 0.7}}, {'kind': 'cleanup', 'id': 'cl0', 'script': [['ok']], 'opts': {}},
+                        {'kind': 'update', 'id': 'u1', 'script': []}, {'kind': 'create', 'id': 'c1'}]
+            tl = [[0.0, 'create', 'o0', {'spec': {'x': 0}}], [0.5, 'start', 'op1'], [round(2.0 + dt, 6), 'stop', 'op1']]
+            out.append({'name': f'dirs{k}', 'desc': {'seed': k, 'handlers': handlers, 'timeline': tl, 'faults': [], 'quiet': None, 'latency': 0.001, 'end': 'stop', 'exit_wait': 200.0,
+                                                     'settings': dict(base_settings), 'trigger': 'stop', 't_trigger': round(2.0 + dt, 6), 't_final': 20.0, 'post_yields': yields}})
+    for yields in (0, 2, 5):
+        for d_stop in (0.0, 0.3, 0.9, 1.5, 1.9):
+            for persona, opts in (({'type': 'stubborn'}, {'cancellation_backoff': 3.0, 'cancellation_timeout': 1.0}), ({'type': 'linger', 'linger': 4.0}, {'cancellation_backoff': 5.0, 'cancellation_timeout': 2.0})):
+                k += 1
+                handlers = [{'kind': 'cleanup', 'id': 'cl0', 'script': [['ok']], 'opts': {}}, {'kind': 'daemon', 'id': 'd0', 'persona': persona, 'opts': opts},
+                            {'kind': 'update', 'id': 'u1', 'script': [['slow', 1.5]] * 50}, {'kind': 'create', 'id': 'c1'}]
+                tl = [[0.0, 'create', 'o0', {'spec': {'x': 0}}], [0.0, 'create', 'ns2/o1', {'spec': {'x': 0}}], [0.5, 'start', 'op1'],
+                      [7.3, 'edit', 'ns2/o1', {'spec': {'x': 1}}], [8.0, 'ns_del', 'ns2'], [round(8.0 + d_stop, 3), 'stop', 'op1']]
+                out.append({'name': f'dirn{k}', 'desc': {'seed': k, 'handlers': handlers, 'timeline': tl, 'faults': [], 'quiet': None, 'latency': 0.001, 'end': 'stop', 'exit_wait': 200.0,
+                                                         'settings': dict(base_settings), 'trigger': 'stop_in_ns_removal', 't_trigger': 8.0, 't_final': 30.0, 'post_yields': yields,
+                                                         'namespaces': ['ns1', 'ns2'], 'operator_kwargs': {'namespaces': ['ns*']}}})
+    return out
+
+
 def gen_cases(tier: str, seed: int):
     rng = random.Random(f'C20-{seed}')
     n = 300 if tier == 'quick' else 8000
-    return [{'name': f'rnd{i}', 'desc': rnd_desc(rng, i)} for i in range(n)]
+    return directed() + [{'name': f'rnd{i}', 'desc': rnd_desc(rng, i)} for i in range(n)]
 
 
 def run_case(case: dict[str, Any]) -> dict[str, Any]:
@@ -218,6 +247,13 @@ def run_case(case: dict[str, Any]) -> dict[str, Any]:
             viol.append({'mech': 'operator-lingers-after-failure' if trig not in ('stop', 'stop_in_startup', 'stop_in_ns_removal', 'stop_api_down', 'cancel') else 'exit-not-bounded',
                          'msg': f"trigger {trig} at t={t_fire}: kopf.operator() returned at t={t_end} (bound: {round(t_fire + bound, 3)})"
                                 + ("; it only ended because the harness stopped it at the end of the run" if stopped_at_final else ''), 'witness': None})
+        # a tighter bound when nothing can legitimately linger: no daemons/timers, no handler in flight at the trigger -> no worker drain, no hung-task grace
+        busy = [c for c in ix.calls if c['inc'] == name and c['kind'] in ('daemon', 'timer', 'create', 'update', 'startup') and c['t'] <= t_fire + 1e-9
+                and (c['seq'] not in ix.rets or ix.rets[c['seq']]['t'] >= t_fire - 1e-9)]
+        has_bg = any(h['kind'] in ('daemon', 'timer') for h in specs.values())
+        if trig in ('stop',) and startup_done and not busy and not has_bg and not desc.get('peering') and t_end is not None and t_end > t_fire + cleanup_grace + 1.0:
+            viol.append({'mech': 'exit-delayed-by-lingering-tasks', 'msg': f"stop requested at t={t_fire} with no daemon, timer or handler in flight: kopf.operator() returned only at t={t_end} "
+                                                                            f"(cleanup handlers need at most {cleanup_grace}s): something was left hanging and waited for", 'witness': None})
         # ---- L4: failures are re-raised -----------------------------------------------------------------------------------------------------
         if trig in ('watch_error', 'worker_fatal', 'discovery_down', 'keepalive_down') and t_end is not None and t_end <= t_fire + bound and inc.exc is None and not inc.cancelled:
             viol.append({'mech': 'failure-not-reraised', 'msg': f"trigger {trig} at t={t_fire}: kopf.operator() returned normally at t={t_end} instead of re-raising the failure", 'witness': None})
